@@ -7,6 +7,7 @@ import (
 	"hash"
 	"sort"
 	"sync"
+	"sync/atomic"
 	"testing/synctest"
 )
 
@@ -62,6 +63,9 @@ type Kernel struct {
 	lastTask  string
 	Stats     map[string]int64
 	GroupRels int
+	// Quiescing is true while the scheduler waits for the tasks to settle, i.e. while code
+	// of the system under test runs; hooks use it to tell task goroutines from the scheduler.
+	Quiescing atomic.Bool
 }
 
 // Active is the kernel of the run in progress (nil outside runs). Shims consult it.
@@ -126,6 +130,8 @@ func (k *Kernel) Park(name, kind, detail string, data any) Decision {
 
 // Quiesce returns when no task can make progress without the scheduler.
 func (k *Kernel) Quiesce() {
+	k.Quiescing.Store(true)
+	defer k.Quiescing.Store(false)
 	if k.mode == M2 {
 		synctest.Wait()
 		return
